@@ -12,6 +12,8 @@ Line protocol for the configuration-validation model (component `cfgb` of the dr
                                                     (`TrippyConfig::build_config`, strategy-relevant part)
   cfgb multi <mode> <proto i|u|t> <number of targets> <dns-resolve-all 0|1>
       -> ok | err                                   (`validate_multi`)
+  cfgb priv <unprivileged 0|1> <has 0|1> <needs 0|1>
+      -> ok | err                                   (`validate_privilege`)
 -/
 namespace TV.Builder
 open TV TV.Strat
@@ -118,6 +120,9 @@ def handle (args : List String) : Option String :=
     let n ← n.toNat?
     let all ← parseBool all
     pure (if validateMulti mode proto n all then "ok" else "err")
+  | ["priv", u, h, n] => do
+    -- cfgb priv <unprivileged 0|1> <has privileges 0|1> <platform needs privileges 0|1>  -> ok | err
+    pure (if validatePrivilege (← parseBool u) (← parseBool h) (← parseBool n) then "ok" else "err")
   | _ => none
 
 end TV.Builder
